@@ -8,6 +8,7 @@ The glue around sympy (transform_expression, extract_atom, _convert_internal_exp
 (Model/SymbolicGlue.v) and compared with the implementation on every sympy tree the run produced.
 """
 import json
+import os
 import random
 from fractions import Fraction
 
@@ -52,11 +53,11 @@ def cpoint(p):
 
 def e2e_lit(job, res, points):
     outs = res.get("ok")
-    return "(CE2E %s %d %s %s %s %s %s)" % (
+    return "(CE2E %s %d %s %s %s %s %s %s)" % (
         cstr(job["entry"]), job["digits"], clist([cstr(c) for c in job["conds"]]),
         clist([cstr(c) for c in job.get("assumptions", [])]),
         cobs(outs, render=lambda l: clist([cstr(x) for x in l])), cbool(res.get("reader_ok", False)),
-        clist([cpoint(p) for p in points]))
+        clist([cpoint(p) for p in points]), clist([cstr(h) for h in res.get("hints", [])]))
 
 
 def tree_size(t):
@@ -340,10 +341,7 @@ def fluents_in_texts(texts):
 
 
 def classify(inp, res):
-    fl = fluents_in_texts(inp["job"]["conds"] + inp["job"].get("assumptions", []))
-    if collides(fl):
-        return "D21"
-    return "D21b"
+    return None          # no open finding class: every deviation is a violation
 
 
 def run(args):
@@ -390,11 +388,15 @@ def run(args):
             cases.append({"lit": lit, "input": desc, "nontrivial": nontrivial, "witness_of": None, "what": "glue"})
     verdicts, info = run_case_shards(PROP, "Corr.C13", [c["lit"] for c in cases], shard_size=40,
                                      header_extra="From Coq Require Import QArith.\nFrom Verif Require Import Model.SymbolicGlue Spec.Poly.\n")
+    if os.environ.get("C13_DEBUG"):
+        json.dump([{"v": v, "what": c["what"], "input": c["input"]} for c, v in zip(cases, verdicts) if v != "."],
+                  open(os.environ["C13_DEBUG"], "w"), indent=1)
     decide(rep, PROP, "Corr.C13", cases, verdicts, info, explain_expr="explain %s",
            header_extra="From Coq Require Import QArith.\nFrom Verif Require Import Model.SymbolicGlue Spec.Poly.\n")
-    facts_ok = (facts.get("float_fmt") == ["0.12", "2.68", "-0.00", "2", "0.12", "0.667"]
+    facts_ok = (facts.get("float_fmt") == ["0.12", "2.68", "-0.00", "2", "0.12", "-0.001"]
                 and facts.get("float_str") == ["0.125000000000000", "2.67500000000000", "1234.56789000000", "1.00000000000000e-5"]
-                and facts.get("strip_regex") == r"[\(\-\)\s\?]")
+                and facts.get("strip_regex") == r"[\(\-\)\s\?]"
+                and facts.get("fluent_regex") == r"(\([^\W\d][\w-]*\s[?\w\-\s]*\))")
     if not facts_ok:
         p = write_replay(PROP, "library_facts", {"kind": "correspondence", "why": "sympy number formatting / library regex facts differ from the model", "facts": facts})
         rep.violation(p, False)
